@@ -83,6 +83,9 @@ mod keys;
 mod memory_estimator;
 mod thread_local_cache;
 
+#[cfg(cachelito_verif)]
+pub mod verif_seams;
+
 pub mod invalidation;
 pub mod utils;
 
